@@ -492,11 +492,21 @@ func (r *runner) replay(b *behaviour, base string) {
 				}
 			}
 		}
-		revAccBefore := set{}
+		revAccBefore, revVolBefore := set{}, set{}
 		for k := range o.revAcc {
 			revAccBefore[k] = true
 		}
-		if delivered && evaluable && full {
+		for k := range o.revVol {
+			revVolBefore[k] = true
+		}
+		// timer STARTS are booked whenever the code may have accepted the refresh (if what it
+		// trusted at the fetch is unknown, any signature may have counted); RESETS below only
+		// when it certainly did and recorded the outcome
+		mayFull := full
+		if delivered && !evaluable && st.Z != nil && len(st.Z.Keys) > 0 && len(st.Z.SignedN) > 0 {
+			mayFull = true
+		}
+		if delivered && mayFull {
 			for _, k := range sc.Model.Keys {
 				if plain[k] && o.seen[k] < 0 {
 					o.seen[k] = 0
@@ -504,7 +514,7 @@ func (r *runner) replay(b *behaviour, base string) {
 				if plain[k] && !conf[k] && o.seen[k] >= 30 {
 					o.earned[k] = true
 				}
-				if T[k] && !plain[k] && o.miss[k] < 0 {
+				if (T[k] || !evaluable) && !plain[k] && o.miss[k] < 0 {
 					o.miss[k] = 0
 				}
 			}
@@ -583,7 +593,7 @@ func (r *runner) replay(b *behaviour, base string) {
 			if o.revAcc[k] {
 				r.violate(b, si, "RevokedNeverAgain", o.cause(sc, k, st, revSet), fmt.Sprintf(
 					"%s is trusted (rootKeys=%v) after its self-signed revocation was accepted and recorded", k, trustedAfter))
-			} else if o.revVol[k] {
+			} else if revVolBefore[k] {
 				r.violate(b, si, "RevokedNeverAgainStrict", "after-failclosed", fmt.Sprintf(
 					"%s is trusted again (rootKeys=%v): its self-signed revocation was accepted, neither record could be written, "+
 						"the resolver failed closed, and a later refresh forgot the revocation", k, trustedAfter))
@@ -644,7 +654,7 @@ func (r *runner) replay(b *behaviour, base string) {
 			if len(revSet) > 0 && tl.Attempted && !tl.TombLanded && !tl.StateLanded {
 				r.count("failclosed_double_write_failure", 1)
 				if len(trustedAfter) != 0 {
-					r.violate(b, si, "FailClosed", o.causeIgnored(sc, st, revSet), fmt.Sprintf(
+					r.violate(b, si, "FailClosed", "double-write-failure"+o.causeSuffix(sc, st, revSet), fmt.Sprintf(
 						"revocation of %v accepted, neither the tombstones nor the state file could be written, but rootKeys=%v instead of failing closed",
 						revSet.list(), trustedAfter))
 				}
@@ -747,6 +757,13 @@ func (o *oracle) cause(sc *script, k string, st *step, revSet set) string {
 		return "tombstones-unreadable"
 	case o.sawStateCorrupt:
 		return "sole-record-corrupted"
+	}
+	return ""
+}
+
+func (o *oracle) causeSuffix(sc *script, st *step, revSet set) string {
+	if c := o.causeIgnored(sc, st, revSet); c != "revocation-ignored" {
+		return "/" + c
 	}
 	return ""
 }
